@@ -50,9 +50,10 @@ struct Conn {
 /// key generation when it was tapped. The sender may have *initiated* the next update with it
 /// (KeySet::encryption_phase switches keys at encryption time, the KeyUpdate event only comes
 /// with the peer's answer), and a receiver that still retains the previous read keys cannot
-/// open such packets yet (RFC 9001 6.5 warns about exactly this). Who initiated is visible
-/// afterwards: the responder rotates first. The verdict is therefore deferred to the
-/// receiver's next KeyUpdate event.
+/// open such packets yet (RFC 9001 6.5 warns about exactly this). The verdict is deferred to
+/// the receiver's next KeyUpdate event: if the update to the next generation completes, the
+/// packets are explained; if it does not (or the receiver lives on for 5 s without one) they
+/// are reported.
 struct Held {
     t: u64,
     gen: u16,
@@ -314,10 +315,14 @@ impl Monitor for C08 {
             let held = self.conns.get_mut(&(ep, conn)).map(|c| std::mem::take(&mut c.held)).unwrap_or_default();
             for h in held {
                 let sender_gen = self.conns.get(&h.src).map(|c| c.key_gen);
-                if h.gen + 1 == *generation && sender_gen == Some(h.gen) {
-                    // the receiver answers an update its peer initiated: the held packets were
-                    // protected with the next keys while the previous ones were still retained
-                    cx.summary.count("c08.undecryptable_next_key_generation", 1);
+                if h.gen + 1 == *generation && (sender_gen == Some(h.gen) || sender_gen == Some(h.gen + 1)) {
+                    // the update to the next generation completes: the held packets may have
+                    // been protected with the next keys (their sender initiating) while the
+                    // receiver still retained the previous ones. The order of the two
+                    // KeyUpdate events does not settle who initiated - both ends reach their
+                    // limit at about the same time and may both initiate - so this is as
+                    // much as can be said from outside.
+                    cx.summary.count(if sender_gen == Some(h.gen) { "c08.undecryptable_next_key_generation" } else { "c08.undecryptable_next_key_generation_both_initiating" }, 1);
                     cx.feature("next_generation_packet_during_retention");
                 } else {
                     cx.violate("C08", "genuine-packet-undecryptable", h.what, h.detail);
